@@ -507,6 +507,13 @@ class Arm(Machine):
             R[d] = v
             if setflags:
                 self.setnz(v)
+                # carry: out of the adder (add), no borrow (sub), last bit shifted out (shifts by 1..32)
+                if base == "add":
+                    self.c = 1 if a + b > 0xFFFFFFFF else 0
+                elif base == "sub":
+                    self.c = 1 if a >= b else 0
+                elif base in ("lsl", "lsr", "ror") and 0 < n <= 32:
+                    self.c = ((a >> (32 - n)) & 1) if base == "lsl" else ((a >> (n - 1)) & 1) if base == "lsr" else ((a >> ((n - 1) % 32)) & 1)
         elif base in ("mov", "mvn"):
             v = self.op2(o[1:], here)
             if base == "mvn":
@@ -569,8 +576,9 @@ class Arm(Machine):
                 R[self.reg(o[0])] = self.load(self.memaddr(",".join(o[1:]), here), size)
             else:
                 self.store(self.memaddr(",".join(o[1:]), here), size, R[self.reg(o[0])] & ((1 << (8 * size)) - 1))
-        elif mn in ("beq", "bne", "bhi", "bls", "bhs", "blo"):
-            cond = {"beq": self.z == 1, "bne": self.z == 0, "bhi": self.c == 1 and self.z == 0, "bls": self.c == 0 or self.z == 1, "bhs": self.c == 1, "blo": self.c == 0}[mn]
+        elif mn in ("beq", "bne", "bhi", "bls", "bhs", "blo", "bcs", "bcc", "bmi", "bpl"):
+            cond = {"beq": self.z == 1, "bne": self.z == 0, "bhi": self.c == 1 and self.z == 0, "bls": self.c == 0 or self.z == 1, "bhs": self.c == 1, "blo": self.c == 0,
+                    "bcs": self.c == 1, "bcc": self.c == 0, "bmi": self.n == 1, "bpl": self.n == 0}[mn]
             if cond:
                 return self.jump_label(o[0], here)
         elif mn == "b":
